@@ -21,6 +21,7 @@ from ..ctx import Ctx
 from ..report import DISCHARGED, VIOLATED, RuleResult
 from .nf4 import GEN, World, _literal_sets
 
+ABSENT_I = 0                 # (index of ABSENT in the universes)
 ABSENT = "<absent>"          # the sample is an object without the field (it has another one)
 EMPTY = "<empty object>"     # the sample is the empty object
 
@@ -261,8 +262,18 @@ def _rule_perm1(ctx: Ctx) -> RuleResult:
     universes = {"first round (raw types of the values)": raw_universe(w),
                  "second round (field types of simplified models that are merged)": optimised_universe(w),
                  "second round, two varying fields (lists of up to two samples)": pairs_universe(w)}
-    combos = {k: [c for r in ((1, 2) if "two varying" in k else (1, 2, 3)) for c in itertools.combinations_with_replacement(range(len(u)), r)]
-              for k, u in universes.items()}
+    # lists of one or two samples over the whole universe; lists of three over its core (the thorough tier: the whole universe)
+    # first round: absent, {}, int, float, null, two literals, a pseudo-type, a model, List[Any], List[int], Dict[Any]
+    # second round: absent, int, float, Optional[int], Optional[float], Literal, Optional[Literal], pseudo-type, Optional[pseudo-type],
+    #               str, List[int], List[Optional[int]], Union[int, Literal]
+    core = {"first": {ABSENT_I, 1, 2, 3, 5, 6, 7, 9, 11, 13, 14, 21}, "second": {0, 1, 2, 3, 4, 5, 6, 7, 8, 9, 12, 13, 15}}
+    combos = {}
+    for k, u in universes.items():
+        cs = [c for r in (1, 2) for c in itertools.combinations_with_replacement(range(len(u)), r)]
+        if "two varying" not in k:
+            idx = range(len(u)) if ctx.tier == "thorough" else sorted(i for i in core[k.split()[0]] if i < len(u))
+            cs += list(itertools.combinations_with_replacement(idx, 3))
+        combos[k] = cs
     _SHARED["world"], _SHARED["universe"], _SHARED["combos"] = w, universes, combos
     ncpu = min(16, os.cpu_count() or 1)
     parts = ncpu * 2 if ncpu > 1 else 1
@@ -292,7 +303,7 @@ def _rule_perm1(ctx: Ctx) -> RuleResult:
     f_merge = ctx.prog.func(GEN, "MetadataGenerator.merge_field_sets")
     if f_merge.key not in evaluated or w.f_opt.key not in evaluated:
         raise AnalysisError("PERM-1: merge_field_sets / optimize_type were not evaluated")
-    if stats["lists"] < 3000:
+    if stats["lists"] < 1500:
         raise AnalysisError(f"PERM-1: only {stats['lists']} sample lists")
     rr.analysed = sorted(evaluated)
     rr.notes.append("; ".join(f"{k}: {len(u)} entries" for k, u in universes.items()) + f": {stats['lists']} lists of up to three samples "
